@@ -603,14 +603,12 @@ pub fn set_version_mode(m: &mut [u8], vn: u8, mode: u8) {
 /// as `hash == q * len + r` (a 64x64 multiplier the SAT solver has to invert): > 10 min per query;
 /// with an 8-bit hash the same constraint is solved in seconds.
 pub fn hasher_finish_model(h: &std::hash::DefaultHasher) -> u64 {
+    // DefaultHasher = SipHasher13 = { k0, k1, length, state: [v0, v2, v1, v3], tail, ntail } = 9 words
     const N: usize = std::mem::size_of::<std::hash::DefaultHasher>() / 8;
+    const _: () = assert!(N == 9);
     let w: &[u64; N] = unsafe { &*(h as *const std::hash::DefaultHasher as *const [u64; N]) };
-    let mut x = 0u64;
-    let mut i = 0;
-    while i < N {
-        x ^= w[i];
-        i += 1;
-    }
+    // no loop: keeps the harness unwind bound independent of this model
+    let mut x = w[0] ^ w[1] ^ w[2] ^ w[3] ^ w[4] ^ w[5] ^ w[6] ^ w[7] ^ w[8];
     x ^= x >> 32;
     x ^= x >> 16;
     x ^= x >> 8;
